@@ -1,6 +1,8 @@
 package main
 
 import (
+	"os"
+	"go/constant"
 	"fmt"
 	"go/token"
 	"go/types"
@@ -434,10 +436,10 @@ func (x *Exec) scanCallWrites(c *ssa.CallCommon, in ssa.Instruction, ws *writeSe
 			return
 		}
 		if k := x.sp.lookupIface(c.Value.Type(), c.Method.Name()); k != nil {
-			x.scanContractWrites(k, ws)
+			x.scanContractWrites(k, ws, nil, nil)
 			return
 		}
-		ws.all = true
+		dbgAll(1, ws)
 		return
 	}
 	switch callee := c.Value.(type) {
@@ -453,22 +455,22 @@ func (x *Exec) scanCallWrites(c *ssa.CallCommon, in ssa.Instruction, ws *writeSe
 			ws.heaps["MP|"+typeID(mt)] = arrSort(SInt, arrSort(mapKeySort(mt), SBool))
 		}
 	case *ssa.Function:
-		x.scanFuncWrites(callee, ws, visited, depth)
+		x.scanFuncWrites(callee, ws, visited, depth, c)
 	case *ssa.MakeClosure:
-		x.scanFuncWrites(callee.Fn.(*ssa.Function), ws, visited, depth)
+		x.scanFuncWrites(callee.Fn.(*ssa.Function), ws, visited, depth, nil)
 	default:
 		// function value: if it is a load of a local that only ever holds closures of this function we could resolve; be conservative
-		ws.all = true
+		dbgAll(2, ws)
 	}
 }
 
-func (x *Exec) scanFuncWrites(callee *ssa.Function, ws *writeSet, visited map[*ssa.Function]bool, depth int) {
+func (x *Exec) scanFuncWrites(callee *ssa.Function, ws *writeSet, visited map[*ssa.Function]bool, depth int, call *ssa.CallCommon) {
 	if k := x.contractFor(callee); k != nil && !k.Inline {
-		x.scanContractWrites(k, ws)
+		x.scanContractWrites(k, ws, callee, call)
 		return
 	}
 	if callee.Blocks == nil || (!inRepo(pkgPathOf(callee)) && callee.Parent() == nil) || depth > 6 {
-		ws.all = true
+		dbgAll(3, ws)
 		return
 	}
 	if visited[callee] {
@@ -480,17 +482,35 @@ func (x *Exec) scanFuncWrites(callee *ssa.Function, ws *writeSet, visited map[*s
 	}
 }
 
-func (x *Exec) scanContractWrites(k *FuncSpec, ws *writeSet) {
+// staticArgFalse: the call passes the constant false for the callee's parameter `name`.
+func staticArgFalse(callee *ssa.Function, k *FuncSpec, call *ssa.CallCommon, name string) bool {
+	if callee == nil || call == nil {
+		return false
+	}
+	for i, pn := range paramNames(callee, k) {
+		if pn == name && i < len(call.Args) {
+			if c, ok := call.Args[i].(*ssa.Const); ok && c.Value != nil && c.Value.Kind() == constant.Bool {
+				return !constant.BoolVal(c.Value)
+			}
+		}
+	}
+	return false
+}
+
+func (x *Exec) scanContractWrites(k *FuncSpec, ws *writeSet, callee *ssa.Function, call *ssa.CallCommon) {
 	ws.allocs = true
 	if !k.HasMod {
-		ws.all = true
+		dbgAll(4, ws)
 		return
 	}
 	env := &Env{x: x, pkgPath: k.PkgPath}
 	for _, l := range k.Modifies {
+		if l.When != "" && staticArgFalse(callee, k, call, l.When) {
+			continue
+		}
 		switch {
 		case l.All, l.Footprint:
-			ws.all = true
+			dbgAll(5, ws)
 		case l.Ghost != "":
 			g := x.sp.Ghosts[l.Ghost]
 			ws.heaps["G|"+l.Ghost] = x.ghostHeapSort(g)
@@ -502,7 +522,45 @@ func (x *Exec) scanContractWrites(k *FuncSpec, ws *writeSet) {
 			// expr.field or elems(expr): need the static type of the base; resolve conservatively through the callee signature is
 			// not available here, so find every struct type in the contract's package having this field
 			if l.Elems != nil {
-				ws.all = true
+				// elems(param): the element type of that parameter
+				done := false
+				if id, ok := l.Elems.(*EIdent); ok && callee != nil {
+					for i, pn := range paramNames(callee, k) {
+						sig := callee.Signature
+						off := 0
+						if sig.Recv() != nil {
+							off = 1
+						}
+						if pn == id.Name && i-off >= 0 && i-off < sig.Params().Len() {
+							if sl, ok := sig.Params().At(i - off).Type().Underlying().(*types.Slice); ok {
+								ws.addType(sl.Elem(), "elem")
+								done = true
+							}
+						}
+					}
+				}
+				if !done {
+					dbgAll(6, ws)
+				}
+				continue
+			}
+			if l.Cell != nil {
+				// cell(addrof(global)): that package-level variable; cell(param) of a pointer parameter: every variable of its type
+				done := false
+				if c, ok := l.Cell.(*ECall); ok && c.Fn == "addrof" && len(c.TypeArgs) == 1 {
+					func() {
+						defer func() { recover() }()
+						st0 := &State{heap: map[string]*Term{}, top: mkVar("top0", SInt)}
+						v, _ := x.eval(x.newEnv(st0, k.PkgPath), l.Cell)
+						if p, ok := v.(*PtrV); ok && p.Global != nil {
+							ws.addType(p.Global.Type().(*types.Pointer).Elem(), "cell")
+							done = true
+						}
+					}()
+				}
+				if !done {
+					dbgAll(8, ws)
+				}
 				continue
 			}
 			found := false
@@ -519,7 +577,7 @@ func (x *Exec) scanContractWrites(k *FuncSpec, ws *writeSet) {
 				}
 			}
 			if !found {
-				ws.all = true
+				dbgAll(7, ws)
 			}
 		}
 	}
@@ -1006,4 +1064,11 @@ func (x *Exec) runInit(st *State, pkgRef string) {
 	}
 	x.inInit = false
 	x.note("assumption: package %s is initialised and the tables its initialiser builds are not modified afterwards (see the frame obligation next to the contract)", shortPkg(sp.Pkg.Path()))
+}
+
+func dbgAll(site int, ws *writeSet) {
+	ws.all = true
+	if os.Getenv("GVC_DEBUG_GEN") != "" {
+		fmt.Fprintf(os.Stderr, "WS.ALL at site %d\n", site)
+	}
 }
